@@ -94,7 +94,7 @@ def run(ctx):
         fam = ["sequential", "fanout-none", "fanout-one"][k % 3]
         mode = ["event", "event", "rest", "sync", "child", "mixed"][(k // 3) % 6]
         typ = "EXPRESS" if mode == "sync" or (mode == "event" and rng.random() < 0.15) else "STANDARD"
-        via = {"event": ("event",), "rest": ("rest",), "sync": ("sync",), "child": ("event",), "mixed": ("event", "rest")}[mode]
+        via = {"event": ("event",), "rest": ("rest",), "sync": ("sync",), "child": ("event",), "mixed": ("event", "rest", "minimal")}[mode]
         scn, meta = F.scenario(rng, fam, n_exec=rng.randint(1, ctx.pick(4, 8)), via=via, typ=typ)
         if mode == "child":
             variant = ["plain", "sibling-fails", "parent-timeout"][(k // 18) % 3]
